@@ -1,7 +1,10 @@
 (* Props/C08.v — WeightedAliasIndex encodes and samples exactly the given weights
-   (integer weight types).  Statements only.                                          *)
-From Coq Require Import ZArith List Lia.
+   (integer weight types).  Statements only; the proofs live in Proofs/Alias*.v.
+   The vocabulary below is defined from the model's primitives only, so the statements can be
+   read without looking at the proof files.                                                 *)
+From Coq Require Import ZArith List Bool Lia.
 From RD Require Import Model.Tree Model.Uniform Model.Alias.
+From RD Require Proofs.AliasBasics Proofs.AliasLoop Proofs.AliasSample.
 Import ListNotations.
 Open Scope Z_scope.
 
@@ -13,3 +16,107 @@ Example C08_nonvacuous :
 Proof. split; vm_compute; reflexivity. Qed.
 
 Print Assumptions C08_nonvacuous.
+
+(* ---------- vocabulary ---------- *)
+
+(* the weight type contains 0 *)
+Definition wfA (ty : aty) : Prop := alo ty <= 0 <= amax ty.
+(* n = weights.len(), Sm = exact sum of the weights, maxw = W::MAX / n (0 if n does not fit W) *)
+Definition nZ (ws : list Z) : Z := Z.of_nat (length ws).
+Definition Sm (ws : list Z) : Z := fold_right Z.add 0 ws.
+Definition maxw (ty : aty) (ws : list Z) : Z :=
+  if nZ ws <=? amax ty then amax ty / nZ ws else 0.
+
+(* mass handed to outcome i by the aliased parts of columns j < N:
+   sum over j < N with odds[j] < sum and aliases[j] = i of (sum - odds[j]) *)
+Definition alias_in (t : atab) (N i : nat) : Z :=
+  fold_right (fun j acc =>
+      (if (geti (t_odds t) j <? t_sum t) && (geti (t_al t) j =? Z.of_nat i)
+       then t_sum t - geti (t_odds t) j else 0) + acc) 0 (seq 0 N).
+
+(* number of thresholds r in [0, sum) for which column c yields outcome i *)
+Definition npick (t : atab) (c i : nat) : Z :=
+  Z.of_nat (length (filter (fun r => alias_pick t c (Z.of_nat r) =? Z.of_nat i)
+                           (seq 0 (Z.to_nat (t_sum t))))).
+
+(* number of (column, threshold) pairs in [0,N) x [0,sum) yielding outcome i *)
+Definition npairs (t : atab) (N i : nat) : Z :=
+  fold_right (fun c acc => npick t c i + acc) 0 (seq 0 N).
+
+(* ---------- 1. complete characterisation of the result of new() ---------- *)
+
+Theorem C08_new_errors : forall ty ws, wfA ty ->
+  let bad_len := nZ ws = 0 \/ nZ ws > 4294967295 in
+  let bad_w := exists w, In w ws /\ (w < 0 \/ w > maxw ty ws) in
+  (bad_len -> alias_new ty ws = Err InvalidInput) /\
+  (~ bad_len -> bad_w -> alias_new ty ws = Err InvalidWeight) /\
+  (~ bad_len -> ~ bad_w -> Sm ws = 0 -> alias_new ty ws = Err InsufficientNonZero) /\
+  (~ bad_len -> ~ bad_w -> Sm ws <> 0 -> exists t, alias_new ty ws = Ok t).
+Proof. exact AliasLoop.alias_new_errors. Qed.
+Print Assumptions C08_new_errors.
+
+(* ---------- 2. every constructed table is correct ---------- *)
+
+Theorem C08_shape : forall ty ws t, wfA ty -> alias_new ty ws = Ok t ->
+  length (t_al t) = length ws /\ length (t_odds t) = length ws /\
+  t_sum t = Sm ws /\ 0 < t_sum t.
+Proof. exact AliasSample.new_shape. Qed.
+Print Assumptions C08_shape.
+
+(* odds lie in [0, sum]; a column whose alias can be selected has a valid alias index, i.e. the
+   u32::MAX sentinel / stale stack links are never dereferenced *)
+Theorem C08_odds_range : forall ty ws t, wfA ty -> alias_new ty ws = Ok t ->
+  forall c, (c < length ws)%nat ->
+  0 <= geti (t_odds t) c <= t_sum t /\
+  (geti (t_odds t) c < t_sum t -> 0 <= geti (t_al t) c < nZ ws).
+Proof. exact AliasSample.new_odds_range. Qed.
+Print Assumptions C08_odds_range.
+
+(* mass conservation: own odds + aliased mass received = n * w_i *)
+Theorem C08_mass : forall ty ws t, wfA ty -> alias_new ty ws = Ok t ->
+  forall i, (i < length ws)%nat ->
+  geti (t_odds t) i + alias_in t (length ws) i = nZ ws * nth i ws 0.
+Proof. exact AliasSample.new_mass. Qed.
+Print Assumptions C08_mass.
+
+Theorem C08_weights_roundtrip : forall ty ws t, wfA ty -> alias_new ty ws = Ok t ->
+  alias_weights ty t = Some ws.
+Proof. exact AliasSample.new_weights_roundtrip. Qed.
+Print Assumptions C08_weights_roundtrip.
+
+Theorem C08_pick_count : forall ty ws t, wfA ty -> alias_new ty ws = Ok t ->
+  forall c i, (c < length ws)%nat ->
+  npick t c i =
+  (if Nat.eqb c i then geti (t_odds t) c else 0) +
+  (if geti (t_odds t) c <? t_sum t
+   then (if geti (t_al t) c =? Z.of_nat i then t_sum t - geti (t_odds t) c else 0) else 0).
+Proof. exact AliasSample.new_pick_count. Qed.
+Print Assumptions C08_pick_count.
+
+(* of the n * sum equally likely (column, threshold) pairs exactly n * w_i select outcome i,
+   i.e. P(i) = n * w_i / (n * Sm) = w_i / Sm *)
+Theorem C08_pair_count : forall ty ws t, wfA ty -> alias_new ty ws = Ok t ->
+  forall i, (i < length ws)%nat ->
+  npairs t (length ws) i = nZ ws * nth i ws 0.
+Proof. exact AliasSample.new_pair_count. Qed.
+Print Assumptions C08_pair_count.
+
+Theorem C08_zero_never : forall ty ws t, wfA ty -> alias_new ty ws = Ok t ->
+  forall i, nth i ws 0 = 0 ->
+  forall c r, (c < length ws)%nat -> 0 <= r < t_sum t -> alias_pick t c r <> Z.of_nat i.
+Proof. exact AliasSample.new_zero_never. Qed.
+Print Assumptions C08_zero_never.
+
+Theorem C08_pick_in_range : forall ty ws t, wfA ty -> alias_new ty ws = Ok t ->
+  forall c r, (c < length ws)%nat -> 0 <= r < t_sum t -> 0 <= alias_pick t c r < nZ ws.
+Proof. exact AliasSample.new_pick_in_range. Qed.
+Print Assumptions C08_pick_in_range.
+
+(* ---------- 3. Lemire sampling returns a value in [0, range) ---------- *)
+
+Theorem C08_lemire_in_range : forall fuel b range words v rest,
+  Forall (fun x => 0 <= x < 2^64) words -> 0 < range ->
+  lemire fuel b range words = Some (v, rest) ->
+  0 <= v < range /\ Forall (fun x => 0 <= x < 2^64) rest.
+Proof. exact AliasSample.lemire_in_range. Qed.
+Print Assumptions C08_lemire_in_range.
